@@ -74,7 +74,7 @@ func (verifC06NoParts) GetPartIds(ctx contextT, tx database.Tx) ([]partstore.Par
 }
 func (verifC06NoParts) DeletePart(ctx contextT, tx database.Tx, id partstore.PartId) error { return nil }
 
-var verifC06Keys = []string{"a", "a/one", "a/two", "b", "b/one", "c"}
+var verifC06Keys = []string{"a", "a/a/x", "a/one", "b", "b/one", "c"} // sorted; a/a/x: a segment made of the prefix's own characters
 
 func verifC06ULID(n int) string {
 	var id ulid.ULID
@@ -143,6 +143,21 @@ func VerifC06ListObjectsPaginate() {
 
 	r := &http.Request{Method: "GET", Header: http.Header{}, URL: &url.URL{Path: "/bucket"}, Host: "s3.example", RemoteAddr: "10.0.0.1:1"}
 	bucket := storage.MustNewBucketName("bucket")
+	// one page that holds everything: exactly the matching keys and common prefixes
+	{
+		res, _, err := s.listAndFilterObjects(verifBg, r, bucket, storage.ListObjectsOptions{Prefix: &prefix, Delimiter: &delimiter, MaxKeys: 1000})
+		verifAssert(err == nil, "C06: ListObjects failed")
+		verifAssert(!res.IsTruncated, "C06: a ListObjects page with room for everything is flagged truncated")
+		verifAssert(len(res.Objects) == len(wantKeys), "C06: an untruncated ListObjects page misses or invents a key")
+		for i := range res.Objects {
+			verifAssert(res.Objects[i].Key.String() == wantKeys[i], "C06: an untruncated ListObjects page is not the matching keys in ascending order")
+		}
+		verifAssert(len(res.CommonPrefixes) == len(wantPrefixes), "C06: an untruncated ListObjects page misses or invents a common prefix")
+		for i := range res.CommonPrefixes {
+			verifAssert(res.CommonPrefixes[i] == wantPrefixes[i], "C06: an untruncated ListObjects page groups other keys than those containing the delimiter after the prefix")
+		}
+		verifCover("single-page")
+	}
 	var gotKeys, gotPrefixes []string
 	var startAfter *string
 	done := false
